@@ -12,6 +12,12 @@ fn main() {
     fs::create_dir_all(root.join("sub")).unwrap();
     fs::write(root.join("in.ttl"), b"INSIDE").unwrap();
     fs::write(tmp.join("secret.ttl"), b"SECRET").unwrap();
+    // files beside the configured directory whose names derive from it, and a sibling directory sharing its prefix
+    for ext in ["ttl", "nt", "nq", "rdf", "jsonld", "trig", "xml"] { fs::write(tmp.join(format!("root.{}", ext)), b"SECRET").unwrap(); }
+    fs::create_dir_all(tmp.join("root-private")).unwrap();
+    fs::write(tmp.join("root-private").join("x.ttl"), b"SECRET").unwrap();
+    fs::create_dir_all(tmp.join("rootsub")).unwrap();
+    fs::write(tmp.join("rootsub").join("x.ttl"), b"SECRET").unwrap();
     let loader = LocalLoader::new(vec![(Iri::new_unchecked("x:/".into()), root.clone())]).unwrap();
     let abs_secret = tmp.join("secret.ttl");
     let abs_secret = abs_secret.to_str().unwrap();
@@ -23,6 +29,9 @@ fn main() {
         "x:/%2e%2e/secret.ttl".into(), "x:/%2E%2E%2Fsecret.ttl".into(), "x:/.%2e/secret.ttl".into(), "x:/sub%2f..%2f..%2fsecret.ttl".into(), "x:/%2e%2e/secret".into(),
     ];
     iris.push(format!("x:/sub/{}", abs_secret));
+    // the namespace itself / only empty and '.' segments (extension guessing must not leave the directory)
+    iris.extend(["x:/".to_string(), "x:/#f".into(), "x:/./".into(), "x:/.//".into(), "x:/.".into(), "x:/sub/..".into(), "x:/sub/../".into(), "x:/sub/.././".into(),
+        "x:/-private/x.ttl".into(), "x:/sub/../../root-private/x.ttl".into(), "x:/../rootsub/x.ttl".into(), "x:/../root.ttl".into(), "x:/../root".into()]);
     let mut bad = None;
     let mut n = 0;
     for i in &iris {
@@ -30,6 +39,13 @@ fn main() {
         if let Ok((data, _ctype)) = loader.get(Iri::new_unchecked(i.as_str())) {
             if data == b"SECRET" { bad = Some(i.clone()); break; }
         }
+    }
+    // two namespaces one of which prefixes the other (mapped to sibling dirs)
+    let loader2 = LocalLoader::new(vec![(Iri::new_unchecked("y:/ns/".into()), root.clone()), (Iri::new_unchecked("y:/ns/deep/".into()), root.join("sub"))]).unwrap();
+    for i in ["y:/ns", "y:/ns/", "y:/ns../secret.ttl", "y:/ns/../secret.ttl", "y:/ns-private/x.ttl", "y:/ns/deep/../../secret.ttl", "y:/ns/deep/../../../secret.ttl", "y:/ns/deep/", "y:/ns/deep",
+              "y:/ns.ttl", "y:/ns/deep/../in.ttl", "y:/nssub/x.ttl", "y:/ns/../root-private/x.ttl"] {
+        n += 1;
+        if bad.is_none() { if let Ok((data, _)) = loader2.get(Iri::new_unchecked(i)) { if data == b"SECRET" { bad = Some(i.to_string()); } } }
     }
     let ok_inside = loader.get(Iri::new_unchecked("x:/in.ttl")).map(|(d, _)| d == b"INSIDE").unwrap_or(false);
     let _ = fs::remove_dir_all(&tmp);
